@@ -22,6 +22,10 @@ HISTORIES = [
 ]
 # a value larger than the BufWriter's capacity reaches the file in more than one write call: a kill between them cuts the entry
 HISTORIES.append((1 << 20, "all", "set a 1; set big %s; set b 2; del a; set big2 %s" % ("x" * 9000, "y" * 20000)))
+# a key larger than the BufWriter's capacity: its record -- in the data file and, after a merge, in the HINT file -- reaches the file
+# in more than one write call (every record is flushed on its own, so this is the only way a kill leaves a hint file that ends in
+# the middle of a record, next to the still existing inputs of the merge)
+HISTORIES.append((1 << 20, "all", "set a 1; set %s 2; set b 3; set a 4; merge; set z 1" % ("K" * 9000)))
 # histories whose LAST operation appends the last entry of the highest data file: that file is then cut by a few bytes, which is what
 # a kill (or power loss) in the middle of the last write leaves; the last operation counts as in flight
 TRUNCATIONS = [
